@@ -266,4 +266,10 @@ DESIGNS = {
   'ManyBranchy9': lambda: ManyBranchy(9),
   'RegFile': lambda: RegFileTop(),
   'RegEnRst': lambda: RegEnRstTop(),
+  # larger instances (thorough tier of C07): more blocks than any packing boundary of the Mamba meta blocks, longer chains
+  'ShiftChain7': lambda: ShiftChain(7),
+  'ListRot7': lambda: ListRot(7),
+  'ManyBranchy21': lambda: ManyBranchy(21),
+  'ManyBranchy10': lambda: ManyBranchy(10),
+  'ManyBranchy11': lambda: ManyBranchy(11),
 }
